@@ -421,6 +421,10 @@ def swallowed_io_handlers(ctx) -> List[Tuple[Func, ast.ExceptHandler, ast.Try, L
                     if isinstance(x, ast.Call):
                         io |= {e for e in ctx.eff.primitive(x, f, roles, env) if e.startswith(IO_PREFIX)}
                         nm = norm(x.func)
+                        # the wrapped operation of a database decorator performs storage I/O
+                        if isinstance(x.func, ast.Name) and f.parent is not None and x.func.id in f.parent.params() \
+                                and f.parent.cls is None and f.parent.module == "database":
+                            io.add("PRIMARY.<wrapped operation>")
                         if nm in ("os.fsync", "os.replace", "os.rename", "os.remove", "os.unlink", "shutil.copy",
                                   "shutil.copyfile", "shutil.move", "open"):
                             io.add(f"FS.{nm}")
